@@ -32,6 +32,9 @@ ASSUMPTIONS = [
 ]
 
 
+SUBPROCESS_SAMPLE = []  # histories whose world-B verdict is re-derived in a real fresh process
+
+
 def setup(tier):
     pass
 
@@ -285,6 +288,8 @@ def run_case(case) -> core.Outcome:
     if not _same(ra, rb):
         kind = "stale-not-found" if ra == ("exc", "ConversionNotFound") else ("stale-value" if ra[0] == "v" and rb[0] == "v" else "other")
         out.fail(f"C08:history-dependence:{kind}", f"after the interleaved history the final query gives {ra}; the same declarations in a fresh world give {rb}; final={final}")
+    if touched and len(SUBPROCESS_SAMPLE) < 40 and core.case_size(case) < 6000:
+        SUBPROCESS_SAMPLE.append((case, rb))
     if touched:
         out.classes.append("query-before-declaration")
         out.nontrivial = core.case_hash(case)
@@ -292,6 +297,41 @@ def run_case(case) -> core.Outcome:
     if any(s[0] == "redecl" for s in steps):
         out.classes.append("redeclaration")
     return out
+
+
+def worker_post(tier, col):
+    """the in-process 'fresh world' stands for a fresh process: re-derive the declarations-only
+    verdict of a sample of histories in real subprocesses (one interpreter per history) and
+    compare"""
+    import json
+    import os
+    import subprocess
+    import sys
+    import tempfile
+
+    global SUBPROCESS_SAMPLE
+    sample, SUBPROCESS_SAMPLE = SUBPROCESS_SAMPLE[: (4 if tier == "quick" else 40)], []
+    checked = 0
+    for case, rb in sample:
+        with tempfile.NamedTemporaryFile("w", suffix=".json", delete=False) as fh:
+            json.dump([case], fh)
+            path = fh.name
+        try:
+            env = dict(os.environ, PYTHONHASHSEED="0", PYTHONPATH=core.ROOT + os.pathsep + os.environ.get("PYTHONPATH", ""))
+            p = subprocess.run([sys.executable, "-m", "vf.props.c08_exec", path, "plain"], capture_output=True, text=True, env=env, cwd=core.ROOT, timeout=120)
+            if p.returncode != 0:
+                raise RuntimeError(f"c08_exec failed: {p.stderr[-800:]}")
+            got = json.loads(p.stdout)[0]
+        finally:
+            os.unlink(path)
+        want = None if rb is None else [rb[0], repr(rb[1]) if len(rb) > 1 else None, repr(rb[2]) if len(rb) > 2 else None]
+        checked += 1
+        if got != want:
+            o = core.Outcome()
+            o.fail("C08:fresh-world-differs-from-fresh-process", f"declarations-only verdict in a fresh subprocess is {got}, in the in-process fresh world {want}")
+            col.add(case, o)
+            col.evaluations -= 1
+    col.extra["world_B_verdicts_revalidated_in_subprocesses"] = col.extra.get("world_B_verdicts_revalidated_in_subprocesses", 0) + checked
 
 
 def still_fails(case, bucket):
